@@ -8,6 +8,7 @@ use netconf::message::rpc::operation::{
         load_configuration::{Config, Json, Merge, Override, Set, Text, Xml},
         CommitConfiguration, LoadConfiguration, OpenConfiguration,
     },
+    edit_config::{DefaultOperation, ErrorOption, TestOption},
     Builder, CancelCommit, Commit, CopyConfig, Datastore, DeleteConfig, EditConfig, Filter, Get, GetConfig, Opaque, Token, Validate,
 };
 use netconf::{Error, Session};
@@ -106,7 +107,16 @@ enum Param {
     LoadSet(String),
     LoadJson(String),
     LoadXmlFragment(String),
+    /// several parameters of one operation at once (a value must not be lost or altered because
+    /// another parameter is present)
+    CommitCombo { timeout_s: Option<u64>, persist: Option<String> },
+    JunosCommitCombo { check: bool, confirm_s: Option<u64>, log: Option<String>, sync: Option<bool> },
+    EditConfigCombo { candidate: bool, fragment: Option<String>, url: Option<String>, defop: usize, errop: usize, testop: usize },
 }
+
+const DEFOPS: [&str; 3] = ["merge", "replace", "none"];
+const ERROPS: [&str; 3] = ["stop-on-error", "continue-on-error", "rollback-on-error"];
+const TESTOPS: [&str; 3] = ["test-then-set", "set", "test-only"];
 
 impl Param {
     fn name(&self) -> &'static str {
@@ -129,12 +139,45 @@ impl Param {
             Self::LoadSet(_) => "load-configuration/configuration-set",
             Self::LoadJson(_) => "load-configuration/configuration-json",
             Self::LoadXmlFragment(_) => "load-configuration/xml",
+            Self::CommitCombo { .. } => "commit/combination",
+            Self::JunosCommitCombo { .. } => "commit-configuration/combination",
+            Self::EditConfigCombo { .. } => "edit-config/combination",
         }
     }
 }
 
 fn gen_param(ctx: &mut Ctx) -> Param {
-    match ctx.pick(19) {
+    match ctx.pick(22) {
+        19 => Param::CommitCombo {
+            timeout_s: match ctx.pick(4) {
+                0 => None,
+                1 => Some(600),
+                2 => Some(1 + ctx.pick(100_000) as u64),
+                _ => Some(60),
+            },
+            persist: (ctx.pick(3) != 0).then(|| gen_text(ctx, true)),
+        },
+        20 => Param::JunosCommitCombo {
+            check: ctx.pick(2) == 1,
+            confirm_s: match ctx.pick(3) {
+                0 => None,
+                1 => Some(600),
+                _ => Some(60 * (1 + ctx.pick(100) as u64)),
+            },
+            log: (ctx.pick(3) != 0).then(|| gen_text(ctx, true)),
+            sync: *ctx.tape.choose(&[None, Some(false), Some(true)]),
+        },
+        21 => {
+            let use_url = ctx.pick(3) == 0;
+            Param::EditConfigCombo {
+                candidate: ctx.pick(2) == 1,
+                fragment: (!use_url).then(|| gen_fragment(ctx)),
+                url: use_url.then(|| gen_url(ctx)),
+                defop: ctx.pick(3),
+                errop: ctx.pick(3),
+                testop: ctx.pick(3),
+            }
+        }
         0 => Param::CommitPersist(gen_text(ctx, true)),
         1 => Param::CommitPersistId(gen_text(ctx, true)),
         2 => Param::CancelPersistId(gen_text(ctx, true)),
@@ -202,6 +245,63 @@ async fn issue(s: &mut Session<SimTransport>, p: &Param) -> Result<(), Error> {
         Param::LoadSet(v) => s.rpc::<LoadConfiguration<_>, _>(|b| b.source(Config::new(v, Text, Set)).finish()).await.map(drop),
         Param::LoadJson(v) => s.rpc::<LoadConfiguration<_>, _>(|b| b.source(Config::new(v, Json, Merge)).finish()).await.map(drop),
         Param::LoadXmlFragment(v) => s.rpc::<LoadConfiguration<_>, _>(|b| b.source(Config::new(Opaque::from(v), Xml, Merge)).finish()).await.map(drop),
+        Param::CommitCombo { timeout_s, persist } => s
+            .rpc::<Commit, _>(|b| {
+                let mut b = b.confirmed(true)?;
+                // parameters in either order
+                if let Some(t) = timeout_s {
+                    b = b.confirm_timeout(std::time::Duration::from_secs(t))?;
+                }
+                if let Some(p) = persist {
+                    b = b.persist(Some(Token::new(p)))?;
+                }
+                b.finish()
+            })
+            .await
+            .map(drop),
+        Param::JunosCommitCombo { check, confirm_s, log, sync } => s
+            .rpc::<CommitConfiguration, _>(|b| {
+                let mut b = b.check(check);
+                if let Some(t) = confirm_s {
+                    b = if t == 600 { b.confirmed(true) } else { b.confirmed_with_timeout(std::time::Duration::from_secs(t)) };
+                }
+                if let Some(l) = log {
+                    b = b.with_log_message(l);
+                }
+                if let Some(f) = sync {
+                    b = b.synchronize(f);
+                }
+                b.finish()
+            })
+            .await
+            .map(drop),
+        Param::EditConfigCombo { candidate, fragment, url, defop, errop, testop } => s
+            .rpc::<EditConfig<Opaque>, _>(|b| {
+                let mut b = b.target(if candidate { Datastore::Candidate } else { Datastore::Running })?;
+                b = match (fragment, url) {
+                    (Some(f), _) => b.config(Opaque::from(f)),
+                    (_, Some(u)) => b.url(u)?,
+                    _ => b,
+                };
+                b = match defop {
+                    1 => b.default_operation(DefaultOperation::Replace),
+                    2 => b.default_operation(DefaultOperation::None),
+                    _ => b,
+                };
+                b = match errop {
+                    1 => b.error_option(ErrorOption::ContinueOnError)?,
+                    2 => b.error_option(ErrorOption::RollbackOnError)?,
+                    _ => b,
+                };
+                b = match testop {
+                    1 => b.test_option(TestOption::Set)?,
+                    2 => b.test_option(TestOption::TestOnly)?,
+                    _ => b,
+                };
+                b.finish()
+            })
+            .await
+            .map(drop),
     }
 }
 
@@ -243,6 +343,75 @@ fn read_back(rpc: &Elem, p: &Param) -> Result<(), String> {
         Param::LoadSet(v) => eq(text_of(op.child("configuration-set"), "configuration-set")?, v),
         Param::LoadJson(v) => eq(text_of(op.child("configuration-json"), "configuration-json")?, v),
         Param::LoadXmlFragment(v) => fragment_equal(op, v),
+        Param::CommitCombo { timeout_s, persist } => {
+            if op.child("confirmed").is_none() {
+                return Err("<confirmed> missing".into());
+            }
+            match (timeout_s, op.child("confirm-timeout")) {
+                (Some(t), Some(e)) => eq(e.text().trim().to_string(), &t.to_string())?,
+                (Some(600) | None, None) => {}
+                (Some(t), None) => return Err(format!("<confirm-timeout> missing (caller gave {t} s, the default is 600 s)")),
+                (None, Some(e)) => eq(e.text().trim().to_string(), "600")?,
+            }
+            match (persist, op.child("persist")) {
+                (Some(p), Some(e)) => eq(e.text(), p),
+                (None, None) => Ok(()),
+                (Some(p), None) => Err(format!("<persist> missing (caller gave the token {p:?}) while confirm-timeout is {timeout_s:?}")),
+                (None, Some(e)) => Err(format!("<persist>{}</persist> sent although no token was given", e.text())),
+            }
+        }
+        Param::JunosCommitCombo { check, confirm_s, log, sync } => {
+            let present = |n: &str| op.child(n).is_some();
+            if present("check") != *check {
+                return Err(format!("<check/> present = {}, caller asked for check = {check}", present("check")));
+            }
+            if present("confirmed") != confirm_s.is_some() {
+                return Err(format!("<confirmed/> present = {}, caller asked for {confirm_s:?}", present("confirmed")));
+            }
+            if let Some(t) = confirm_s {
+                match op.child("confirm-timeout") {
+                    Some(e) => eq(e.text().trim().to_string(), &(t / 60).to_string())?,
+                    None if *t == 600 => {}
+                    None => return Err(format!("<confirm-timeout> missing (caller gave {t} s, the default is 600 s)")),
+                }
+            }
+            match (log, op.child("log")) {
+                (Some(l), Some(e)) => eq(e.text(), l)?,
+                (None, None) => {}
+                (Some(l), None) => return Err(format!("<log> missing (caller gave {l:?})")),
+                (None, Some(_)) => return Err("<log> sent although none was given".into()),
+            }
+            let (plain, force) = (present("synchronize"), present("force-synchronize"));
+            match sync {
+                None if plain || force => Err("synchronize element sent although not asked for".into()),
+                Some(false) if !plain => Err("<synchronize/> missing".into()),
+                Some(true) if !force => Err("<force-synchronize/> missing".into()),
+                _ => Ok(()),
+            }
+        }
+        Param::EditConfigCombo { candidate, fragment, url, defop, errop, testop } => {
+            let want_ds = if *candidate { "candidate" } else { "running" };
+            if op.child("target").and_then(|t| t.elems().next()).map(|e| e.local.as_str()) != Some(want_ds) {
+                return Err(format!("<target> does not name <{want_ds}/>"));
+            }
+            let opt = |name: &str, table: &[&str; 3], k: usize| -> Result<(), String> {
+                match op.child(name) {
+                    Some(e) => eq(e.text().trim().to_string(), table[k]),
+                    None if k == 0 => Ok(()),
+                    None => Err(format!("<{name}> missing (caller chose {})", table[k])),
+                }
+            };
+            opt("default-operation", &DEFOPS, *defop)?;
+            opt("error-option", &ERROPS, *errop)?;
+            opt("test-option", &TESTOPS, *testop)?;
+            if let Some(f) = fragment {
+                fragment_equal(op.child("config").ok_or("<config> missing")?, f)?;
+            }
+            if let Some(u) = url {
+                eq(text_of(op.child("url"), "url")?, u)?;
+            }
+            Ok(())
+        }
     }
 }
 
@@ -260,6 +429,8 @@ fn run(ctx: &mut Ctx) -> Verdict {
         "urn:ietf:params:netconf:capability:validate:1.1",
         "urn:ietf:params:netconf:capability:xpath:1.0",
         "urn:ietf:params:netconf:capability:url:1.0?scheme=http,ftp,file",
+        "urn:ietf:params:netconf:capability:writable-running:1.0",
+        "urn:ietf:params:netconf:capability:rollback-on-error:1.0",
     ];
     // per request: (messages framed by the server during the call, bytes left unframed, send result)
     let obs: Arc<Mutex<Vec<(usize, usize, usize, Result<(), String>)>>> = Arc::default();
@@ -337,7 +508,7 @@ pub static C10: PropSpec = PropSpec {
     runs: |t| if t == Tier::Thorough { 30_000_000 } else { 200_000 },
     enumerated: |_| 0,
     run,
-    rule: "1-3 requests per session, each exercising one text-valued or fragment-valued parameter of one operation (19 parameter sites); text values are concatenations of pieces from an adversarial alphabet (XML metacharacters, quotes, ']]>', the delimiter itself, entity look-alikes, comment/CDATA/PI openers, non-ASCII, empty); fragments come from a well-formed fragment generator (namespaces, attributes, nested elements, rewrite styles) and never contain the delimiter. The server frames by delimiter and parses with the harness's strict parser. Non-trivial = at least one request was sent; distinct = distinct event-log hash (includes the parameter values)",
+    rule: "1-3 requests per session, each exercising one text-valued or fragment-valued parameter of one operation (19 parameter sites), or several parameters of one operation at once (commit: confirm-timeout x persist token; commit-configuration: check x confirmed[-timeout] x log x synchronize; edit-config: target x config|url x default-operation x error-option x test-option), every one of which must be read back; text values are concatenations of pieces from an adversarial alphabet (XML metacharacters, quotes, ']]>', the delimiter itself, entity look-alikes, comment/CDATA/PI openers, non-ASCII, empty); fragments come from a well-formed fragment generator (namespaces, attributes, nested elements, rewrite styles) and never contain the delimiter. The server frames by delimiter and parses with the harness's strict parser. Non-trivial = at least one request was sent; distinct = distinct event-log hash (includes the parameter values)",
     components: &[("netconf session + request serialisers (message/**)", "real"), ("transport", "stub: in-memory"), ("NETCONF server", "model: frames by ]]>]]>, strict XML parser, reads values back")],
     assumptions: &[
         "decided by generated parameter values; schedule fixed",
